@@ -142,9 +142,11 @@ struct Shrinker {
     ShrinkStats &st;
     int max_evals;
     bool test(const Plan &p) {
-        if (st.evals >= max_evals) return false;
+        // a hang costs its whole timeout per evaluation: minimise it with a short watchdog (runs take milliseconds) and few evaluations
+        bool hang = rule == "hang";
+        if (st.evals >= (hang ? std::min(max_evals, 40) : max_evals)) return false;
         st.evals++;
-        EvalResult r = eval_forked(prop, p, 10);
+        EvalResult r = eval_forked(prop, p, hang ? 3 : 10);
         return r.ok && r.rule == rule;
     }
 
